@@ -106,6 +106,17 @@ class Machine:
         self.ophist: Counter = Counter()
         self.cfg: dict = {}
 
+    def soft_fail(self, prop: str, oracle: str, msg: str, **disc) -> None:
+        """Raise a Violation unless it matches an open known finding; then count it and go on, so
+        that a recorded defect does not end every run that meets it."""
+        if not hasattr(self, "_known"):
+            self._known = load_known()
+        f = dict(prop=prop, oracle=oracle, op=getattr(self, "_cur_op", ""), disc=disc)
+        ent = match_known(f, self._known)
+        if ent is None:
+            raise Violation(prop, oracle, msg, disc)
+        self.probes["known:" + ent["id"]] += 1
+
     # hooks
     def draw_config(self, st: Streams, idx: int) -> dict:  # pragma: no cover
         raise NotImplementedError
